@@ -126,6 +126,9 @@ class Translator:
             return f"(nofZ N {text})"
         if ty == "nat":
             return f"(nofZ N (Z.of_nat {text}))"
+        if ty == ("opt", "A"):
+            # an optional number used as a number (the None case is tested, and raises, before this point)
+            return f"(match {text} with Some v__ => v__ | None => ndiv N (nofZ N 0%Z) (nofZ N 0%Z) end)"
         self.fail(node, f"cannot use a value of type {ty} as a number")
 
     def ex(self, n, env, cfg):
@@ -330,6 +333,10 @@ class Translator:
                     isinstance(n.slice.operand, ast.Constant) and n.slice.operand.value == 1 and bty[1] == "A":
                 return f"(last {base} (nofZ N 0%Z))", "A"
             t, ty = self.ex(n.slice, env, cfg)
+            if ty == "Z":
+                t, ty = f"(Z.to_nat {t})", "nat"
+            if ty == "nat" and bty[1] == "Z":
+                return f"(nth {t} {base} 0%Z)", "Z"
             if ty == "nat" and bty[1] == "A":
                 return f"(nth {t} {base} (nofZ N 0%Z))", "A"
             if ty == "nat" and bty[1] == "species":
@@ -676,6 +683,29 @@ class Translator:
         accs = [v for v in self.assigned(st.body) if v in env]
         if not accs:
             self.fail(st, "loop without accumulator")
+        # sum pattern: straight-line body `local = e ...; acc += e`  ->  acc + sum_left (map (fun x => ...) iter)
+        body_s = [b for b in st.body if not self.is_doc(b)]
+        if len(accs) == 1 and env[accs[0]] in ("A", "Z") and body_s and isinstance(body_s[-1], ast.AugAssign) \
+                and isinstance(body_s[-1].op, ast.Add) and isinstance(body_s[-1].target, ast.Name) \
+                and body_s[-1].target.id == accs[0] \
+                and all(isinstance(b, ast.Assign) and len(b.targets) == 1 and isinstance(b.targets[0], ast.Name)
+                        and b.targets[0].id != accs[0] for b in body_s[:-1]) \
+                and accs[0] not in self.free_names([b.value for b in body_s], set()):
+            env_b = dict(env)
+            env_b.update(ext)
+            lets = []
+            for b in body_s[:-1]:
+                v, vty = self.ex(b.value, env_b, cfg)
+                lets.append(f"let {cname(b.targets[0].id)} := {v} in")
+                env_b[b.targets[0].id] = vty
+            term, tty = self.ex(body_s[-1].value, env_b, cfg)
+            term = self.inj(term, tty, st)
+            acc0 = self.inj(cname(accs[0]), env[accs[0]], st)
+            env2 = dict(env)
+            env2[accs[0]] = "A"
+            k, kty = self.block(rest, env2, cfg, tail)
+            fun = f"(fun {pat} => {' '.join(lets)} {term})"
+            return f"let {cname(accs[0])} := (nadd N {acc0} (sum_left N (map {fun} {it}))) in\n  {k}", kty
         for v in accs:
             if env[v] != "A":
                 self.fail(st, f"accumulator {v} of type {env[v]}")
